@@ -31,8 +31,17 @@ func DeserializeSessionDescription(msg string) (*webrtc.SessionDescription, erro
 		return nil, errors.New("cannot deserialize SessionDescription without sdp field")
 	}
 
+	typeStr, ok := parsed["type"].(string)
+	if !ok {
+		return nil, errors.New("cannot deserialize SessionDescription with non-string type field")
+	}
+	sdpStr, ok := parsed["sdp"].(string)
+	if !ok {
+		return nil, errors.New("cannot deserialize SessionDescription with non-string sdp field")
+	}
+
 	var stype webrtc.SDPType
-	switch parsed["type"].(string) {
+	switch typeStr {
 	default:
 		return nil, errors.New("Unknown SDP type")
 	case "offer":
@@ -47,7 +56,7 @@ func DeserializeSessionDescription(msg string) (*webrtc.SessionDescription, erro
 
 	return &webrtc.SessionDescription{
 		Type: stype,
-		SDP:  parsed["sdp"].(string),
+		SDP:  sdpStr,
 	}, nil
 }
 
